@@ -20,7 +20,14 @@ for sid in sorted(res):
     own = r.get('checks', {}).get(r.get('property'), {})
     sym = own.get('first', '').split('symptom=')[-1]
     tier = meta.get('caught_tier', 'quick')
+    seeds = r.get('caught_by_seed', {})
     caught = ('%s %s: `%s`' % (r['property'], tier, sym[:70])) if r.get('caught') else '**missed**'
+    if r.get('caught') and seeds and not all(seeds.values()):
+        caught += ' (seeds caught: %s)' % ', '.join(k for k, v in sorted(seeds.items()) if v)
+    if r.get('demo_passes_without_change') is False:
+        caught += ' (demonstration does not pass on the unchanged tree)'
+    if meta.get('note'):
+        caught += ' (note: %s)' % meta['note']
     if meta.get('obsolete'):
         caught = 'obsolete: ' + meta['obsolete']
     if meta.get('strengthened'):
